@@ -72,64 +72,58 @@ type hparam struct{ name, val string }
 
 func trimLWS(s string) string { return strings.Trim(s, " \t\r\n") }
 
-func scanParams(p []byte) []hparam {
+// scanParams splits a parameter span. Quotes are quoting only inside a value
+// (after '='); the second result is false when the text is ambiguous for an
+// independent reader - a quote or backslash in a name position, or an
+// unterminated quoted string - in which case nothing is asserted about it.
+func scanParams(p []byte) ([]hparam, bool) {
 	var out []hparam
-	var cur []byte
-	flush := func() {
-		s := string(cur)
-		cur = cur[:0]
-		eq := -1
+	i := 0
+	n := len(p)
+	for i < n {
+		// name: up to '=' or ';'
+		st := i
+		for i < n && p[i] != '=' && p[i] != ';' {
+			if p[i] == '"' || p[i] == '\\' {
+				return nil, false
+			}
+			i++
+		}
+		name := trimLWS(string(p[st:i]))
+		if i >= n || p[i] == ';' {
+			if name != "" {
+				out = append(out, hparam{name, ""})
+			}
+			i++
+			continue
+		}
+		i++ // '='
+		vs := i
 		inq := false
-		for i := 0; i < len(s); i++ {
-			c := s[i]
+		for i < n {
+			c := p[i]
 			if inq {
 				if c == '\\' {
 					i++
 				} else if c == '"' {
 					inq = false
 				}
-				continue
-			}
-			if c == '"' {
-				inq = true
-			} else if c == '=' {
-				eq = i
-				break
-			}
-		}
-		if eq < 0 {
-			if n := trimLWS(s); n != "" {
-				out = append(out, hparam{n, ""})
-			}
-			return
-		}
-		out = append(out, hparam{trimLWS(s[:eq]), trimLWS(s[eq+1:])})
-	}
-	inq := false
-	for i := 0; i < len(p); i++ {
-		c := p[i]
-		if inq {
-			cur = append(cur, c)
-			if c == '\\' && i+1 < len(p) {
-				i++
-				cur = append(cur, p[i])
 			} else if c == '"' {
-				inq = false
+				inq = true
+			} else if c == ';' {
+				break
+			} else if c == '=' {
+				return nil, false
 			}
-			continue
+			i++
 		}
-		switch c {
-		case '"':
-			inq = true
-			cur = append(cur, c)
-		case ';':
-			flush()
-		default:
-			cur = append(cur, c)
+		if inq || i > n {
+			return nil, false
 		}
+		out = append(out, hparam{name, trimLWS(string(p[vs:i]))})
+		i++ // ';'
 	}
-	flush()
-	return out
+	return out, true
 }
 
 // checkNAParams: expires / q of one name-addr value against the digits in its
@@ -140,7 +134,10 @@ func checkNAParams(what string, f *sipsp.PFromBody, buf []byte) string {
 	if f.Params.Len == 0 {
 		return ""
 	}
-	ps := scanParams(f.Params.Get(buf))
+	ps, ok := scanParams(f.Params.Get(buf))
+	if !ok {
+		return ""
+	}
 	var exp, q []string
 	for _, p := range ps {
 		switch strings.ToLower(p.name) {
